@@ -64,6 +64,18 @@ def check_override_passthrough(ctx, rule, prog, ep, props_adt, field, table, ofi
     okshape = cur[0] == "call" and short_callee(cur[1]) == "and_then" and len(cur[2]) == 2 and strip(cur[2][0])[0] == "call" and short_callee(strip(cur[2][0])[1]) == "get" \
         and (leaf_name(strip(strip(cur[2][0])[2][0])) or "").endswith("overrides." + table)
     if not okshape:
+        # the entry is looked up, but what is taken from it is decided inside a closure applied with `map` (the outer loop above stepped through it):
+        # `map(get(table, id), |o| o.<field>.unwrap_or(k))` turns "no override of this field" into the constant k
+        isget = cur[0] == "call" and short_callee(cur[1]) == "get" and (leaf_name(strip(cur[2][0])) or "").endswith("overrides." + table)
+        vv = v
+        while vv[0] == "call" and short_callee(vv[1]) in SELECTING and vv[2] and short_callee(vv[1]) != "map":
+            vv = strip(vv[2][0])
+        if isget and vv[0] == "call" and short_callee(vv[1]) == "map" and len(vv[2]) == 2:
+            r_ = closure_return(prog, sc, vv[2][1], ("elem", "O", ()))
+            if r_ is not None and r_[0] == "call" and short_callee(r_[1]) in ("unwrap_or", "unwrap_or_default", "unwrap_or_else", "map_or"):
+                ctx.violation(rule, key, "an override entry that does not give %s yields %s instead of `no override` (an entry may give only U or only F_sh;obst): the computed or "
+                              "default value is never used for that element" % (ofield, show(r_)[:70]), ep.loc(ln))
+                return
         raise AnalysisError("%s.%s is %s: not a lookup of model.overrides.%s" % (props_adt, field, show(v)[:100], table))
     r = closure_return(prog, sc, cur[2][1], ("elem", "O", ()))
     rname = leaf_name(r) if r is not None else None
